@@ -7,6 +7,7 @@ import (
 	"go/ast"
 	"go/token"
 	"go/types"
+	"strconv"
 	"strings"
 
 	"golang.org/x/tools/go/ssa"
@@ -129,6 +130,14 @@ func calleeName(c *ssa.CallCommon) string {
 		if g, ok := v.X.(*ssa.Global); ok {
 			return g.Name()
 		}
+		// a function value loaded from a struct field: the field's name
+		if fa, ok := v.X.(*ssa.FieldAddr); ok {
+			if pt, ok := fa.X.Type().Underlying().(*types.Pointer); ok {
+				if st, ok := pt.Elem().Underlying().(*types.Struct); ok {
+					return st.Field(fa.Field).Name()
+				}
+			}
+		}
 	case *ssa.Parameter:
 		return v.Name()
 	case *ssa.Builtin:
@@ -168,6 +177,47 @@ func callSites(f *ssa.Function) map[ssa.Instruction]callSite {
 	}
 	callSiteCache[f] = m
 	return m
+}
+
+// siteExists: does the function (still) have the program point a site clause names?
+func siteExists(fn *ssa.Function, site string) bool {
+	w := strings.Fields(site)
+	if len(w) == 0 {
+		return false
+	}
+	if w[0] == "after" {
+		w = w[1:]
+	}
+	switch w[0] {
+	case "entry":
+		return true
+	case "return":
+		n := 0
+		for _, b := range fn.Blocks {
+			for _, in := range b.Instrs {
+				if _, ok := in.(*ssa.Return); ok {
+					n++
+				}
+			}
+		}
+		if len(w) == 1 {
+			return n > 0
+		}
+		k, _ := strconv.Atoi(w[1])
+		return k >= 1 && k <= n
+	case "call":
+		if len(w) < 3 {
+			return false
+		}
+		k, _ := strconv.Atoi(w[2])
+		for _, cs := range callSites(fn) {
+			if cs.name == w[1] && cs.k == k {
+				return true
+			}
+		}
+		return false
+	}
+	return true // other kinds of site are not checked statically
 }
 
 // runSite executes the statement-level clauses attached to `site` of fn
